@@ -31,6 +31,12 @@ import Rooc.Proofs.LinMain
 import Rooc.Proofs.LinCounter
 import Rooc.Proofs.LinBridgeCounter
 import Rooc.Proofs.LinDExamples2
+import Rooc.Proofs.LinTolCounter
+import Rooc.Proofs.LinWire
+import Rooc.Proofs.LinSucceed2
+import Rooc.Proofs.LinDExamples3
+import Rooc.Proofs.LinDExamples4
+import Rooc.Proofs.LinTrace2
 namespace Rooc.Props.C01
 open Rooc Rooc.Lin
 open Rooc.Lin.Gadget (B01 DomMax DomMin)
@@ -654,14 +660,22 @@ end Bridge
 `try_lower_affine_logic_assertion`, `directional_logic_witness`, `try_normalize_logic_constraint`)
 
 No syntactic fragment is left: the theorems hold for EVERY model on which the compilation succeeds, under a
-semantic contract on the source expressions.  Vocabulary (`Rooc/Proofs/LinD2.lean`, `LinD4.lean`, `LinD5.lean`,
-`LinD10.lean`, `LinD11.lean`, `LinBridgeLogic.lean`):
-* `GoodE d e` — the contract on a source expression `e` over the domains `d`: every variable is declared with a
-  usage mark; every literal is finite (`finiteLits`, syntactic); and at EVERY ASSIGNMENT THAT SATISFIES `d`:
-  `e` is defined (`DefOn`), and the operands of every `and`/`or` node are 0/1-valued (`LOon` = C10's
-  `LogicOperands01`).  `operandsOK d e` is a decidable syntactic sufficient condition for the last clause
-  (every and/or operand is a logic value in the sense of the linearizer's own `is_logic_value`).
-* `LogicModel m d` — objective and both sides of every constraint (comparison or bare assertion) are `GoodE d`.
+STATIC contract on the source expressions — definedness is proved, not assumed.  Vocabulary
+(`Rooc/Proofs/LinD2.lean`, `LinD4.lean`, `LinD5.lean`, `LinD10.lean`, `LinD11.lean`, `LinDef1–3.lean`,
+`LinBridgeLogic.lean`):
+* `GoodS d e` — the static contract on a source expression `e` over the domains `d`: every variable is declared
+  with a usage mark; every literal is finite (`finiteLits`, syntactic); and at every assignment that satisfies
+  `d` NO and/or NODE COLLAPSES TO A NON-0/1 VALUE (`NCon`: for every and/or node `n` of `e`, `simplify n` is
+  0/1-valued where defined).  The last clause is exactly what C10's singleton-collapse finding violates; it is
+  implied by `collapsesNonbinary (isBoolVar d) e = false` — the Lean port of the harness flag
+  `nary-singleton-nonbinary` (`harness/src/props/c01.rs::collapses_nonbinary`) — see `no_collapse_check`, and by
+  C10's stronger `LogicOperands01` on the domains (`LOon`, `noCollapse_of_logicOperands`), for which
+  `operandsOK d e` is a syntactic check.
+* `GoodE d e` — `GoodS d e` plus `DefOn d e` (defined at every assignment satisfying `d`); used INSIDE the
+  development (the specifications of the lowering functions below take `DefOn` of their argument); the
+  end-to-end theorems obtain it from the successful run (`process_constraint_defined`).
+* `SrcD d c` — both sides of the constraint `c` are `GoodS d`.
+* `LogicModel m d` — the objective is `GoodS d`, every constraint (comparison or bare assertion) is `SrcD d`.
   Every `FragModel` is a `LogicModel`.
 * `HasTruth e t ρ` — `e` evaluates to `1` (`t = true`) / `0` (`t = false`) at `ρ`;
   `AssertOK d0 s s' e t` — the loop state `s'` has, up to fresh auxiliaries, exactly the solutions of `s` at
@@ -713,10 +727,17 @@ comparisons of a logic value against a constant, bare assertions of nested formu
 `c01_partial` covers): for EVERY model that compiles and satisfies the contract, an assignment is
 source-feasible iff it extends, on the compiler's auxiliaries only, to a feasible point of the linear model.
 
-`_partial`: the excluded region is (i) models with an `and`/`or` operand that is not 0/1-valued on the domains
-(`c01_logic_counterexample`: C10's known finding), (ii) sides undefined at an assignment satisfying the domains
-(`c01_defined_counterexample`).  `DomRel`/`BoxEnforced` as in `c01_partial`; they are discharged for the whole
-pipeline in `c01_compile_logic_partial`. -/
+The contract `LogicModel m d` is STATIC: every side uses declared used variables only, has finite literals and
+is not flagged `nary-singleton-nonbinary` (`no_collapse_check`).  DEFINEDNESS IS NOT A HYPOTHESIS: a successful
+compilation proves every lowered side defined at every assignment (`linearize_exp_defined`,
+`lower_assertion_defined`, `process_constraint_defined`, `compile_objective_defined`).
+
+`_partial`: the excluded region is (i) models with an and/or node that collapses to a non-0/1 value on the
+domains (`c01_logic_counterexample`: C10's known finding, flag `nary-singleton-nonbinary`), (ii) non-finite
+literals (`c01_defined_counterexample`).  Three places where rooc discarded a sub-expression without lowering it
+were found with these theorems and are repaired (5a25b35, 46b0121, ba14904: `c01_zero_factor_regression`,
+`c01_pruned_operand_regression`, `c01_verdict_regression`).  `DomRel`/`BoxEnforced` as in `c01_partial`; they
+are discharged for the whole pipeline in `c01_compile_logic_partial`. -/
 theorem c01_logic_partial {m : Model (Ext K)} {b : BoundsMap (Ext K)} {d : List (DomVar (Ext K))}
     {lm : LinModel (Ext K)} (h : linearizeWith m b d = .ok lm)
     (hm : LogicModel m d) (hdom : DomRel m d) (hbox : BoxEnforced b d) (ρ : String → K) :
@@ -734,10 +755,115 @@ theorem c01_compile_logic_partial {m : Model (Ext K)} {t : K} (ht : 0 ≤ t) {ma
       ∃ ρ' : String → K, (∀ x, inScope m.domain x → ρ' x = ρ x) ∧ linFeasible lm ρ' = true :=
   compile_feasible_iff_logic ht h hm hsh hok ht1 ρ
 
-/-- a decidable sufficient condition for the and/or clause of the contract. -/
+/-- a decidable sufficient condition for C10's `LogicOperands01` on the domains. -/
 theorem logic_operands_check {d : List (DomVar (Ext K))} (hnd : (d.map (·.name)).Nodup) {e : Exp (Ext K)}
     (h : operandsOK d e = true) (hsc : ∀ y ∈ varsOf e, inScope d y) : LOon d e :=
   loOn_of_operandsOK hnd h hsc
+
+/-- `LogicOperands01` on the domains implies the and/or clause of the contract (it is the stronger condition). -/
+theorem noCollapse_of_logicOperands {d : List (DomVar (Ext K))} {e : Exp (Ext K)} (hlo : LOon d e)
+    (hd : DefOn d e) : NCon d e := NCon.ofLO hlo hd
+
+/-- **the and/or clause of the contract is the harness flag**: an expression that `collapsesNonbinary` (the port
+of `collapses_nonbinary` of `harness/src/props/c01.rs`, root cause flag `nary-singleton-nonbinary`) does not flag
+satisfies it. -/
+theorem no_collapse_check {d : List (DomVar (Ext K))} (hnd : (d.map (·.name)).Nodup) {e : Exp (Ext K)}
+    (hsc : ∀ x ∈ varsOf e, inScope d x) (h : collapsesNonbinary (isBoolVar d) e = false) : NCon d e :=
+  NCon.ofFlag hnd hsc h
+
+/-- a decidable sufficient condition for the definedness clause: finite literals and the Rust guard
+`may_be_undefined` answers `false` (every divisor is a non-zero literal, no empty `min`/`max`). -/
+theorem defined_check {d : List (DomVar (Ext K))} {e : Exp (Ext K)} (hf : finiteLits e = true)
+    (hu : Exp.mayBeUndefined e = false) : DefOn d e := by
+  intro ρ _
+  have := Rooc.Def_of_total ρ e hf hu
+  exact ⟨_, Rooc.eval_of_Def this⟩
+
+/-- **the contract from decidable checks only**: well-scoped, finite literals, not flagged
+`nary-singleton-nonbinary` on every side.  Nothing else. -/
+theorem logicModel_of_checks {m : Model (Ext K)} {d : List (DomVar (Ext K))} (hnd : (d.map (·.name)).Nodup)
+    (hobj : (∀ x ∈ varsOf m.objective, inScope d x) ∧ finiteLits m.objective = true ∧
+      collapsesNonbinary (isBoolVar d) m.objective = false)
+    (hcons : ∀ c ∈ m.constraints,
+      ((∀ x ∈ varsOf c.lhs, inScope d x) ∧ finiteLits c.lhs = true ∧
+        collapsesNonbinary (isBoolVar d) c.lhs = false) ∧
+      ((∀ x ∈ varsOf c.rhs, inScope d x) ∧ finiteLits c.rhs = true ∧
+        collapsesNonbinary (isBoolVar d) c.rhs = false)) :
+    LogicModel m d := by
+  have mk : ∀ e : Exp (Ext K), ((∀ x ∈ varsOf e, inScope d x) ∧ finiteLits e = true ∧
+      collapsesNonbinary (isBoolVar d) e = false) → GoodS d e :=
+    fun e h => ⟨h.1, h.2.1, NCon.ofFlag hnd h.1 h.2.2⟩
+  exact ⟨mk _ hobj, fun c hc => ⟨mk _ (hcons c hc).1, mk _ (hcons c hc).2⟩⟩
+
+/-! ### compile succeeds ⇒ defined -/
+
+/-- **success of `Exp::linearize` proves definedness**: an expression with finite literals that is lowered
+successfully — any requirement, any state, no invariant — has a value at EVERY assignment.  (Every
+sub-expression is lowered or skipped under `!may_be_undefined()`: rooc 5a25b35, 46b0121.) -/
+theorem linearize_exp_defined {e : Exp (Ext K)} {req : Req} {s : St (Ext K)} {r : Ctx (Ext K) × St (Ext K)}
+    (h : linExp e req s = .ok r) (hf : finiteLits e = true) (ρ : String → K) : ∃ v, eval ρ e = some v :=
+  def_iff_exists.mp (def_of_linExp h hf ρ)
+
+/-- the same for `lower_logic_assertion` (with `try_lower_affine_logic_assertion`, `directional_logic_witness`
+and the `iff`/`xor` witnesses inside). -/
+theorem lower_assertion_defined {e : Exp (Ext K)} {t : Bool} {name : String} {s s' : St (Ext K)}
+    (h : lowerAssertion e t name s = .ok ((), s')) (hf : finiteLits e = true) (ρ : String → K) :
+    ∃ v, eval ρ e = some v :=
+  def_iff_exists.mp (def_of_lowerAssertion h hf ρ)
+
+/-- the same for `directional_logic_witness`. -/
+theorem directional_witness_defined {e : Exp (Ext K)} {t : Bool} {s : St (Ext K)} {r : Exp (Ext K) × St (Ext K)}
+    (h : dirWitness e t s = .ok r) (hf : finiteLits e = true) (ρ : String → K) : ∃ v, eval ρ e = some v :=
+  def_iff_exists.mp (dirWitness_def e t s r h hf ρ)
+
+/-- **one iteration of the loop on a source constraint under the static contract**: when it succeeds, the left
+side — and for a comparison the right side — AS WRITTEN BY THE USER (before `normalize`) has a value at every
+assignment satisfying the domains. -/
+theorem process_constraint_defined {d0 : List (DomVar (Ext K))} {c : Constraint (Ext K)} {s : St (Ext K)}
+    {r : Unit × St (Ext K)} (h : processConstraint c s = .ok r) (hc : SrcD d0 c) (ρ : String → K)
+    (hd : DomSat ρ d0) :
+    (∃ v, eval ρ c.lhs = some v) ∧ (c.isAssert = false → ∃ v, eval ρ c.rhs = some v) := by
+  obtain ⟨h1, h2⟩ := process_defined h hc ρ hd
+  exact ⟨def_iff_exists.mp h1, fun ha => def_iff_exists.mp (h2 ha)⟩
+
+/-- the objective of a model that compiles under the static contract is defined on the domains. -/
+theorem linearizeWith_objective_defined {m : Model (Ext K)} {b : BoundsMap (Ext K)} {d : List (DomVar (Ext K))}
+    {lm : LinModel (Ext K)} (hm : LogicModel m d) (h : linearizeWith m b d = .ok lm) : DefOn d m.objective :=
+  hm.obj_defined h
+
+/-- the whole pipeline: the objective has a value at every source-feasible assignment. -/
+theorem compile_objective_defined {m : Model (Ext K)} {t : K} (ht : 0 ≤ t) {maxSteps : Nat} {lm : LinModel (Ext K)}
+    (h : Compile.linearize m (.fin t) maxSteps = .ok lm)
+    (hm : LogicModel m m.domain) (hsh : AssertShape m) (hok : DeclOK m.domain)
+    (ht1 : t < 1 ∨ NoIntVars m.domain) (ρ : String → K) (hs : srcFeasible m ρ = true) :
+    ∃ v, eval ρ m.objective = some v :=
+  compile_obj_defined ht h hm hsh hok ht1 ρ hs
+
+/-- **the work-list loses nothing**: when `linearizeWith` succeeds, every source constraint went through one
+successful loop iteration (no lowering function removes or reorders a queued constraint: `QExt`, proved for
+`Exp::linearize`, the logic lowering and the loop body without any invariant). -/
+theorem every_constraint_processed {m : Model (Ext K)} {b : BoundsMap (Ext K)} {d : List (DomVar (Ext K))}
+    {lm : LinModel (Ext K)} (h : linearizeWith m b d = .ok lm) :
+    ∀ c ∈ m.constraints, ∃ (s1 : St (Ext K)) (r1 : Unit × St (Ext K)), processConstraint c s1 = .ok r1 :=
+  compiled_processed h
+
+/-- **compile succeeds ⇒ defined, for the whole model** (`linearizeWith`): under the static contract every side
+of every constraint is defined at every assignment satisfying the domains (the right side of a bare assertion
+is not part of its meaning and is not lowered). -/
+theorem linearizeWith_sides_defined {m : Model (Ext K)} {b : BoundsMap (Ext K)} {d : List (DomVar (Ext K))}
+    {lm : LinModel (Ext K)} (hm : LogicModel m d) (h : linearizeWith m b d = .ok lm) :
+    ∀ c ∈ m.constraints, DefOn d c.lhs ∧ (c.isAssert = false → DefOn d c.rhs) :=
+  compiled_sides_defined hm h
+
+/-- **compile succeeds ⇒ defined, for the whole pipeline `Compile.linearize`**, on the DECLARED domains, for any
+tolerance and step limit, with no hypothesis besides the static contract: the objective and every side of every
+constraint of a model that compiles has a value at every assignment that satisfies the declarations.  (What the
+three repairs 5a25b35 / 46b0121 / ba14904 bought: an accepted model cannot contain an expression without a value.) -/
+theorem c01_compile_defined {m : Model (Ext K)} {tol : Ext K} {maxSteps : Nat} {lm : LinModel (Ext K)}
+    (h : Compile.linearize m tol maxSteps = .ok lm) (hm : LogicModel m m.domain) :
+    DefOn m.domain m.objective ∧
+    ∀ c ∈ m.constraints, DefOn m.domain c.lhs ∧ (c.isAssert = false → DefOn m.domain c.rhs) :=
+  compile_sides_defined h hm
 
 /-- the piecewise-linear fragment is a special case. -/
 theorem logicModel_of_fragModel {m : Model (Ext K)} {d : List (DomVar (Ext K))} (h : FragModel true m d) :
@@ -757,7 +883,7 @@ example (t : K) : ∃ (m : Model (Ext K)) (lm : LinModel (Ext K)),
   obtain ⟨lm, h⟩ := exOr_compile (K := K) (.fin t)
   exact ⟨exOr, lm, h, exOr_logicModel, exOr_assertShape, exOr_declOK, exOr_noInt⟩
 
-/-- **Counterexample for the excluded region** (the and/or clause `LOon` of the contract dropped — C10's known
+/-- **Counterexample for the excluded region** (the and/or clause `NCon` of the contract dropped — C10's known
 finding seen from C01): `min x s.t. c: (x and 1) = 3`, `x ∈ Real(0, 4)`.  `simplify` drops the operand `1`, what
 is left is the non-Boolean `x`, and the row is `x = 3`: the linear model has the feasible point `x = 3`, the
 source model has none (`x and 1` is 0 or 1).  Every other hypothesis of `c01_logic_partial` holds. -/
@@ -766,11 +892,106 @@ theorem c01_logic_counterexample :
       (ρ : String → K),
       linearizeWith m b d = .ok lm ∧ DomRel m d ∧ BoxEnforced b d ∧
       (∀ c ∈ m.constraints, (∀ y, (y ∈ varsOf c.lhs ∨ y ∈ varsOf c.rhs) → inScope d y) ∧ FinE c.lhs ∧ FinE c.rhs ∧
-        DefOn d c.lhs ∧ DefOn d c.rhs ∧ LOon d c.rhs) ∧
+        DefOn d c.lhs ∧ DefOn d c.rhs ∧ NCon d c.rhs) ∧
       GoodE d m.objective ∧
       linFeasible lm ρ = true ∧ ∀ ρ' : String → K, ¬ srcFeasible m ρ' = true :=
   lo_needed
 
 end StageD
+
+/-! ## which hypotheses of the pipeline theorems can be dropped -/
+
+section Hypotheses
+variable [FloorRing K]
+open Rooc.BoundsProofs
+
+/-- **`t < 1` is sharp** (for models with `IntegerRange` variables): for EVERY tolerance `t ≥ 1` and every step
+limit, `min x`, `x ∈ IntegerRange(0, 5)` compiles, every other hypothesis of `c01_compile_logic_partial` holds,
+the linear model accepts `x = 6` and the source model does not.  (`enforceable` rounds the box to
+`[⌈0 − t⌉, ⌊5 + t⌋] ⊇ [−1, 6]` and `apply_to_domain` publishes an even wider `IntegerRange`; the only shipped
+tolerance, `DEFAULT_TOLERANCE = 1e-9`, is far below the threshold.) -/
+theorem c01_tolerance_counterexample {t : K} (ht : 1 ≤ t) (maxSteps : Nat) :
+    ∃ (m : Model (Ext K)) (lm : LinModel (Ext K)) (ρ : String → K),
+      Compile.linearize m (.fin t) maxSteps = .ok lm ∧
+      LogicModel m m.domain ∧ AssertShape m ∧ DeclOK m.domain ∧
+      linFeasible lm ρ = true ∧ ¬ srcFeasible m ρ = true := by
+  obtain ⟨lm, ρ, h1, h2, h3⟩ := tolerance_ge_one_breaks (K := K) ht maxSteps
+  exact ⟨exI, lm, ρ, h1, exI_hyps.1, exI_hyps.2.1, exI_hyps.2.2, h2, h3⟩
+
+/-- **regression for the repaired finding on pruning** (rooc 46b0121, found by this development):
+`min y s.t. c: y ≥ max{10, 0 * (x / 0)}`.  The operand `0 * (x / 0)` has no value at any assignment, its box is
+`[0, 0]`, so it is dominated by `10`; `linearize_extreme` used to PRUNE IT WITHOUT LOWERING IT — the division by
+zero was never reported, the row was `y ≥ 10`, the linear model feasible and the source model not.  The
+retention test is now `¬dominated ∨ may_be_undefined` (`retainedFlagsE`); the operand is lowered and the
+compilation is rejected. -/
+theorem c01_pruned_operand_regression :
+    linearizeWith (exPr : Model (Ext K)) [] (exPr : Model (Ext K)).domain = .error .divisionByZero :=
+  exPr_error
+
+/-- **regression for the repaired finding 4** (rooc ba14904, found by this development and confirmed with
+`Linearizer::linearize`): `min x s.t. c: (b and (x / 0)) ≤ 1`, `x ∈ Real(0, 1)`, `b` Boolean.
+`try_normalize_logic_constraint` answered `Tautology` from the literal `1` alone, so the logic value was never
+lowered and its division by zero never reported: the model compiled to NO row (while `(b and (x / 0)) ≤ 0` was
+rejected).  The two constant verdicts are now guarded by `!may_be_undefined()`; the constraint takes the generic
+path and the compilation is rejected. -/
+theorem c01_verdict_regression :
+    linearizeWith (exTaut : Model (Ext K)) [] (exTaut : Model (Ext K)).domain = .error .divisionByZero :=
+  exTaut_error
+
+/-- **`AssertShape` is discharged for every model that comes over the wire** (`Model.dec`, the decoder the
+checker uses): a bare assertion is always stored as `lhs = 1`. -/
+theorem assertShape_of_wire [Wire (Ext K)] {s : Sexp} {m : Model (Ext K)} (h : Model.dec s = some m) :
+    AssertShape m := assertShape_of_dec h
+
+end Hypotheses
+
+/-! ## the error direction — supported affine models COMPILE
+
+`L1 e` (`Rooc/Proofs/LinSucceed.lean`, decidable): arithmetic only, every product has a literal factor, every
+divisor is a non-zero literal.  `SrcL c`: `c` is a comparison whose sides, AFTER CONSTANT FOLDING (`simplify`), are
+`L1` and fit the flatten fuel (`fsize`, the size of the fully distributed form, ≤ 10⁶). -/
+
+section Success
+variable [FloorRing K]
+open Rooc.Exp
+
+/-- `Exp::linearize` never fails on a linear shape (no spurious `NonLinearExpression` / `DivisionByZero`), and
+does not touch the state. -/
+theorem linearize_exp_succeeds (e : Exp (Ext K)) (h : L1 e) (req : Req) (s : St (Ext K)) :
+    ∃ c, linExp e req s = .ok (c, s) := linExp_L1 e h req s
+
+/-- `L1` is closed under the whole `normalize` (simplify → flatten → simplify), which succeeds within the fuel
+and does not grow the fuel measure. -/
+theorem normalize_succeeds {e : Exp (Ext K)} (h : L1 (simplify e)) (hsz : fsize (simplify e) ≤ flattenFuel) :
+    ∃ e', normalizeExp e = some e' ∧ L1 e' ∧ fsize e' ≤ fsize (simplify e) := normalize_L1 h hsz
+
+/-- **no spurious error**: a model whose objective and constraints are supported affine expressions compiles —
+through the whole pipeline, for every tolerance and every step limit, whatever the declared domains. -/
+theorem c01_affine_compile_succeeds {m : Model (Ext K)} (tol : Ext K) (maxSteps : Nat)
+    (hobj : L1 (simplify m.objective)) (hobjsz : fsize (simplify m.objective) ≤ flattenFuel)
+    (hcons : ∀ c ∈ m.constraints, SrcL c) (hlen : m.constraints.length < drainFuel) :
+    ∃ lm, Compile.linearize m tol maxSteps = .ok lm :=
+  compile_succeeds tol maxSteps hobj hobjsz hcons hlen
+
+/-- the same for `linearizeWith` with any bounds map and any domain. -/
+theorem c01_affine_linearizeWith_succeeds {m : Model (Ext K)} (b : BoundsMap (Ext K)) (d : List (DomVar (Ext K)))
+    (hobj : L1 (simplify m.objective)) (hobjsz : fsize (simplify m.objective) ≤ flattenFuel)
+    (hcons : ∀ c ∈ m.constraints, SrcL c) (hlen : m.constraints.length < drainFuel) :
+    ∃ lm, linearizeWith m b d = .ok lm :=
+  linearizeWith_succeeds b d hobj hobjsz hcons hlen
+
+/-- non-vacuity: `min x s.t. x ≤ y` is a supported affine model. -/
+example : L1 (simplify (exAffine : Model (Ext K)).objective) ∧
+    fsize (simplify (exAffine : Model (Ext K)).objective) ≤ flattenFuel ∧
+    (∀ c ∈ (exAffine : Model (Ext K)).constraints, SrcL c) ∧
+    (exAffine : Model (Ext K)).constraints.length < drainFuel := by
+  refine ⟨by simp [exAffine, simplify, L1], by simp [exAffine, simplify, fsize, flattenFuel], ?_,
+    by simp [exAffine, drainFuel]⟩
+  intro c hc
+  simp only [exAffine, List.mem_singleton] at hc
+  subst hc
+  exact ⟨rfl, by simp [simplify, L1], by simp [simplify, L1], by simp [simplify, fsize, flattenFuel]⟩
+
+end Success
 
 end Rooc.Props.C01
